@@ -29,6 +29,10 @@ CLAIMED = {
          "Bounded-exhaustive model checking over every (outer operator, inner operator, operand position) combination of all constructors (incl. BETWEEN/LIKE-ESCAPE/IN/IS/CAST encodings, PG and SQLite extension operators) under three precedence tables and option-more-parentheses, plus trace validation of the real rendering of every enumerated tree and of random trees to depth 5: TLC parses the recorded SQL with the engine's table and requires the tree that was built.",
          "Trusted: the documented precedence/associativity tables as transcribed (MySQL's finer yacc operand classes not modelled); TLC; SQLite engine for the SQLite dialect.",
          "§5 C05, Appendix C.2"),
+ "C06": ("src/query/condition.rs as a TLA+ state machine (holder contents + history of supplied conditions, one action per cond_where/and_where call); TLC explores all call histories over a supplied set and all depth-2 single conditions, checking under all 27 three-valued assignments that the modelled rendering means the AND of what was given; the histories are replayed on SELECT/HAVING/UPDATE/DELETE/JOIN ON/CASE/ON CONFLICT and every intermediate real rendering is parsed and evaluated by TLC; SQLite truth tables from the real engine",
+         "Model checking of the condition-holder state machine (merge / wrap / single-member unwrapping rules, to_simple_expr fold, parenthesis dropping) against a Kleene-logic definition of what the supplied conditions mean, plus trace validation of the real code on every enumerated history and random deeper ones, at every step of the history and in seven clause positions; on SQLite the rendered statement is executed over a table holding all 27 assignments and the returned rows must be the demanded ones.",
+         "Trusted: TLC; Kleene semantics of AND/OR/NOT/=/<>/IS; the expression parser of C05; SQLite engine.",
+         "§5 C06, Appendix A"),
 }
 NA = {
  "C20": "Type-level fact about Rust auto-traits decided only by rustc's trait solver; no state, transition or observable behaviour to model or trace (DESIGN.md §5 C20).",
